@@ -60,9 +60,16 @@ def harnesses(tier):
         shapes = [dict(OP=code, FN=core.csym(FAM, rx), K=k, _tag='K=%d' % k, _witness=(('witness: operation performed',) if (k or not needs) else ()) + (('witness: precondition violated',) if needs else ())) for k in ks]
         hs.append(Harness('R.' + nm, FAM, [rx], 'c12_range.c', stubs=[r'std::range_error::'], shapes=shapes, opts=['--unwind', '4'], timeout=120, mem_gb=4, inputs=['i0', 'i1'],
                           note='range [begin,end] anywhere inside a vector of exactly K elements, both ends symbolic'))
+    # the same view over a const container (what range() of a const Vector yields): its own instantiation
+    BRC = r'^[^(]*' + SL + r'Bidir_Range<' + VEC + r' const, __gnu_cxx::__normal_iterator<chaiscript::Boxed_Value const\*, [^(]*>::'
+    for code, nm, tail, needs in ((1, 'empty', r'empty\(\) const$', 0), (2, 'pop_front', r'pop_front\(\)$', 1), (3, 'pop_back', r'pop_back\(\)$', 1), (4, 'front', r'front\(\) const$', 1), (5, 'back', r'back\(\) const$', 1), (6, 'ctor', r'Bidir_Range\(std::vector<[^(]* const&\)$', 0)):
+        rx = BRC + tail
+        shapes = [dict(OP=code, FN=core.csym(FAM, rx), K=k, _tag='K=%d' % k, _witness=(('witness: operation performed',) if (k or not needs) else ()) + (('witness: precondition violated',) if needs else ())) for k in ks]
+        hs.append(Harness('CR.' + nm, FAM, [rx], 'c12_range.c', stubs=[r'std::range_error::'], shapes=shapes, opts=['--unwind', '4'], timeout=120, mem_gb=4, inputs=['i0', 'i1'],
+                          note='const range view; range [begin,end] anywhere inside a vector of exactly K elements, both ends symbolic'))
     return hs
 
 ASSUMPTIONS = ['elements are Boxed_Values without control block (copy/destroy of an element is a pointer copy; ownership is C11)', 'operator new = malloc that does not fail',
                'std::range_error / std::out_of_range construction is cut']
-OUTSIDE = ['Map (std::map internals are not modelled)', 'string find family (pure forwarding to libstdc++)', 'range views after structural modification of their container (documented exception of the property); the const-container range type',
+OUTSIDE = ['Map (std::map internals are not modelled)', 'string find family (pure forwarding to libstdc++)', 'range views after structural modification of their container (documented exception of the property)',
            'resize/reserve with sizes above the harness bound']
